@@ -1998,6 +1998,38 @@ theorem wf_rebuild_ok (cfg : Cfg) (ho : cfg.onlyNewUndo = true) (ha : cfg.adoptP
         (fun _ _ hc => .inr hc) ch hch)]
     exact hdok.2
 
+/-- the dry run is exact, for every assignment of labels and maps: the verdict computed before the
+swap is the buildability of the IO view after it -/
+theorem wfIoOk_eq_dryOk (cfg : Cfg) (ho : cfg.onlyNewUndo = true) (ha : cfg.adoptPrecheck = true)
+    (hlp : cfg.linkPrecheck = true) (hpos : cfg.positional = true)
+    (w : W) (p old new : Nat) (w' : W)
+    (h : compReplace cfg w p old new = (w', .ok)) (hinv : Inv w.g) (htab : Tables w old new)
+    (hself : NoSelfConn w.g old) (hsib : SiblingsApart w p old new) : wfIoOk w' p = dryOk w p old new := by
+  obtain ⟨hpo, hpn, _, _, _, links, f, _, _, _, hw'⟩ := compReplace_ok_shape' cfg ho ha hlp hpos w p old new w' h
+  have hne : old ≠ new := by intro e; rw [e, hpn] at hpo; cases hpo
+  obtain ⟨f2, hf2⟩ := forgeSoft_shape cfg.fuel links
+    { w with val := f, t := tAfter w.t p old new,
+             g := disconnectChans
+               (seat { w with g := (copyPairs true w.g true (ioPairs w new old) []).1, val := f } new old)
+               (w.io old).all,
+             cached := updF (updF w.cached p false) new false }
+  have hchans : ∀ side, wfChans w' p side = dryChans w p old new side := by
+    intro side
+    rw [hw', hf2]
+    unfold wfChans dryChans
+    show List.flatMap _ ((tAfter w.t p old new).children p) = _
+    rw [tAfter_children w.t p old new hne, List.flatMap_append]
+    simp
+  have hmaps : w'.imap = w.imap ∧ w'.omap = w.omap := by rw [hw', hf2]; exact ⟨rfl, rfl⟩
+  unfold wfIoOk dryOk
+  rw [hchans, hchans, hmaps.1, hmaps.2]
+  rw [buildIO_conn_congr (w.imap p) _ (dryConn w old new) _
+      (fun ch hch => dryConn_sound cfg ho ha hlp hpos w p old new w' h hinv htab hself hsib NodeIO.inp
+        (fun _ _ hc => .inl hc) ch hch),
+    buildIO_conn_congr (w.omap p) _ (dryConn w old new) _
+      (fun ch hch => dryConn_sound cfg ho ha hlp hpos w p old new w' h hinv htab hself hsib NodeIO.out
+        (fun _ _ hc => .inr hc) ch hch)]
+
 /-- `Workflow.replace_child` with every repair in place: all-or-nothing; the revert branch is dead -/
 theorem replace_atomic_full (cfg : Cfg) (ho : cfg.onlyNewUndo = true) (ha : cfg.adoptPrecheck = true)
     (hlp : cfg.linkPrecheck = true) (hpos : cfg.positional = true) (hdry : cfg.wfDryRun = true)
@@ -2515,6 +2547,58 @@ theorem compReplace_ok_shape_plain (cfg : Cfg) (hlp : cfg.linkPrecheck = false) 
                 exact hne h.2
           | _ => simp at h
         | _ => simp at h
+
+/-! ## the order inside the setter -/
+
+/-- the setter of the code is the forward-then-store instance -/
+theorem setValG_false (w : W) : ∀ (f c : Nat) (v : Option Nat),
+    setValG false w f c v = match setValF w f c v with | some w' => (w', true) | none => (w, false) := by
+  intro f
+  induction f with
+  | zero => intro c v; rfl
+  | succ f ih =>
+    intro c v
+    unfold setValG setValF
+    split
+    · rfl
+    · split
+      · rfl
+      · cases hr : w.recv c with
+        | none => rfl
+        | some r =>
+          simp only [Bool.false_eq_true, if_false]
+          rw [ih r v]
+          cases setValF w f r v <;> rfl
+
+/-- forward, then store: a refused assignment leaves the world — the sender included — untouched;
+`_copy_panel` may therefore log a channel for unwinding only after its assignment succeeded -/
+theorem setValG_refused_untouched (w : W) (f c : Nat) (v : Option Nat)
+    (h : (setValG false w f c v).2 = false) : (setValG false w f c v).1 = w := by
+  rw [setValG_false] at h ⊢
+  cases hs : setValF w f c v with
+  | none => rfl
+  | some w' => rw [hs] at h; simp at h
+
+theorem copyPanelG_false (fuel : Nat) : ∀ (ps : List (Option Nat × Nat)) (w : W) (log : List (Nat × Option Nat)),
+    copyPanelG false fuel w ps log = copyPanel fuel true w ps log := by
+  intro ps
+  induction ps with
+  | nil => intro w log; rfl
+  | cons p ps ih =>
+    intro w log
+    obtain ⟨my, oc⟩ := p
+    unfold copyPanelG copyPanel
+    cases w.val oc with
+    | none => exact ih w log
+    | some v =>
+      cases my with
+      | none => rfl
+      | some m =>
+        dsimp only
+        rw [setValG_false]
+        cases setValF w fuel m (some v) with
+        | none => rfl
+        | some w' => exact ih w' _
 
 /-! ## hard value failures: the reverts are exact (receiving object without value receivers) -/
 
